@@ -123,9 +123,9 @@ def build_cases(ctx, stream: str, n: int) -> list[dict]:
         r = rng(f"C03:{stream}:{i}")
         if stream == "mainstream":
             o = gs.Opts(mainstream=True, max_ops=1, formats=("date-time", "date", "byte"), self_ref=False, unions=False, hostile_prop_names=False,
-                        colliding_props=(i % 3 == 0), allof_variants=(i % 4 == 0))
+                        colliding_props=(i % 3 == 0), allof_variants=(i % 4 == 0), defaults=(i % 2 == 1))
         else:
-            o = gs.Opts(mainstream=True, max_ops=1, formats=("date-time", "date", "byte", "uuid", "time"), self_ref=True, unions=True)
+            o = gs.Opts(mainstream=True, max_ops=1, formats=("date-time", "date", "byte", "uuid", "time"), self_ref=True, unions=True, defaults=(i % 2 == 1))
         doc = gs.gen_spec(r, o)
         items = []
         for name, sch in doc["components"]["schemas"].items():
@@ -141,6 +141,42 @@ def build_cases(ctx, stream: str, n: int) -> list[dict]:
         r.shuffle(items)    # hook registration is per process and order dependent: a container may be decoded before its parts
         cases.append({"id": f"{stream}-{i}", "stream": stream, "doc": doc, "items": items})
     return cases
+
+
+def strip_default_reappearances(doc, sch, back, inp):
+    """`back` without the keys that are ABSENT from the input and came back holding exactly the scalar `default` their
+    property schema declares (finding F74: the dataclass field default is the schema default, so the dump spells it out).
+    Returns (stripped copy, number of keys removed).  Keys present in the input are never touched."""
+    n = 0
+    rs = gs.resolve(doc, sch) if isinstance(sch, dict) else {}
+    if isinstance(back, dict) and isinstance(inp, dict):
+        try:
+            props, _ = gs.effective_object(doc, sch)
+        except Exception:
+            props = {}
+        out = {}
+        for k, v in back.items():
+            ps = props.get(k, rs.get("additionalProperties") if isinstance(rs.get("additionalProperties"), dict) else None)
+            if k not in inp:
+                dflt = gs.resolve(doc, ps).get("default") if isinstance(ps, dict) else None
+                if dflt is not None and isinstance(dflt, (str, int, float, bool)) and type(dflt) is type(v) and dflt == v:
+                    n += 1
+                    continue
+                out[k] = v
+            elif isinstance(ps, dict):
+                out[k], m = strip_default_reappearances(doc, ps, v, inp[k])
+                n += m
+            else:
+                out[k] = v
+        return out, n
+    if isinstance(back, list) and isinstance(inp, list) and len(back) == len(inp) and isinstance(rs.get("items"), dict):
+        res = []
+        for b, i in zip(back, inp):
+            x, m = strip_default_reappearances(doc, rs["items"], b, i)
+            res.append(x)
+            n += m
+        return res, n
+    return back, 0
 
 
 def attribute(item: dict, msg: str) -> str | None:
@@ -191,6 +227,10 @@ def evaluate(run: Run, known, case: dict, res: dict) -> None:
             run.sample({"cls": item["cls"], "json": item["json"], "features": item["features"]}, limit=4)
             continue
         fid = attribute(item, msg)
+        if fid is None and "error" not in out:
+            back2, nstripped = strip_default_reappearances(case["doc"], {"$ref": f"#/components/schemas/{item['schema']}"}, out.get("back"), item["json"])
+            if nstripped and opsrig.json_equiv(back2, item["json"]):
+                fid = "F74"     # the ONLY difference: absent optional properties reappear holding their declared scalar default
         if fid and known.listed(fid):
             known.hit(fid, {"item": item["id"], "msg": msg[:300]})
         elif len(run.violations) < 5:
